@@ -527,3 +527,5 @@ SUBS = [
     Sub("partition", lambda tier: partition_cases(tier), check_partition, quick=250, thorough=1500),
     Sub("refusals", lambda tier: refusal_cases(tier), check_refusals, quick=250, thorough=1500),
 ]
+
+RULE += ' Also: collections built through add() (empty sum, membership by name, refusal of other bins); refusals after a free-arithmetics block that was left normally / through an exception / nested.'
